@@ -44,11 +44,12 @@ def run(ctx):
     rep.guarded("ansi", C + "AnsiColor", lambda: rule_ansi(facts, rep))
     rep.guarded("templates", C, lambda: rule_templates(facts, rep))
     rep.guarded("digits", C + "DisplayBuffer::write_code", lambda: rule_digits(facts, rep))
+    rep.guarded("colours", C + "Color", lambda: rule_colours(facts, rep, ctx.tier))
     rep.guarded("order", S, lambda: rule_order(facts, rep))
     rep.guarded("no-padding", "anstyle", lambda: rule_no_padding(facts, rep, "anstyle", "C05"))
     rep.guarded("io-path", "anstyle", lambda: rule_io_path(facts, rep))
     rep.guarded("effect-sets", "anstyle::effect::Effects", lambda: rule_effect_sets(facts, rep, ctx.tier))
-    for r, n in (("effects", 13), ("ansi", 4), ("templates", 12), ("digits", 4), ("order", 16), ("no-padding", 20), ("io-path", 3), ("effect-sets", 2)):
+    for r, n in (("effects", 13), ("ansi", 4), ("templates", 10), ("digits", 4), ("colours", 9), ("order", 16), ("no-padding", 20), ("io-path", 3), ("effect-sets", 2)):
         rep.floor(r, n)
 
 
@@ -140,14 +141,19 @@ def rule_effect_sets(facts, rep, tier="quick"):
                   f"{len(sets)} effect sets evaluated on the {label} path {bad[label][:2]}"[:500], loc(body))
 
 
-def _display(ev, facts, shown):
+def _display(ev, facts, shown, sink=("sym", "f")):
     """Display::fmt of the value `render()` returned (a newtype of the crate)."""
-    if not (shown[0] == "ctor" and isinstance(shown[1], str)):
+    ty = shown[1] if shown[0] == "ctor" and isinstance(shown[1], str) else None
+    if shown[0] == "rec":
+        tys = [it["path"] for it in facts.items("anstyle") if it["dk"] == "Struct" and it.get("variants")
+               and {f_["name"] for f_ in it["variants"][0]["fields"]} == set(shown[1])]
+        ty = tys[0] if len(tys) == 1 else None
+    if ty is None:
         raise Unrecognised(f"render() returns {str(shown)[:60]}")
-    path = f"<{shown[1]} as core::fmt::Display>::fmt"
+    path = f"<{ty} as core::fmt::Display>::fmt"
     if path not in facts.crate("anstyle")["_bodies"]:
-        raise Unrecognised(f"no Display impl for {shown[1]}")
-    return ev.call_fn("anstyle", path, [shown, ("sym", "f")])
+        raise Unrecognised(f"no Display impl for {ty}")
+    return ev.call_fn("anstyle", path, [shown, sink])
 
 
 def rule_io_path(facts, rep):
@@ -247,42 +253,109 @@ def rule_templates(facts, rep):
             rep.count()
     rep.check(longest <= cap, "templates", C + "DISPLAY_BUFFER_CAPACITY", "capacity-covers-longest-chain",
               f"longest chain needs {longest} bytes (3 per code), capacity is {cap}", "")
-    # Color::render_* / write_*_to dispatch: every variant to the builder of the same slot
-    for fn, target in (("render_fg", "as_fg_buffer"), ("write_fg_to", "as_fg_buffer"), ("render_bg", "as_bg_buffer"), ("write_bg_to", "as_bg_buffer"),
-                       ("render_underline", "as_underline_buffer"), ("write_underline_to", "as_underline_buffer")):
-        b = facts.body("anstyle", C + "Color::" + fn)
-        rep.fn(b["path"])
-        ms = [n for n in hir.walk(b["hir"]) if n.get("k") == "match" and hir.is_local(n["scrut"], "self")]
-        ok = len(ms) == 1
-        if ok:
-            got = {}
-            for a in ms[0]["arms"]:
-                v = hir.last_seg(hir.pat_path(a["pat"]))
-                c = ac.single_expr(a["body"])
-                bound = a["pat"]["pats"][0].get("name") if a["pat"].get("k") == "pts" else None
-                got[v] = (hir.callee(c), hir.local_name(c["args"][0]) == bound if c.get("k") == "call" else False)
-            want = {"Ansi": (C + "AnsiColor::" + target, True), "Ansi256": (C + "Ansi256Color::" + target, True), "Rgb": (C + "RgbColor::" + target, True)}
-            ok = got == want
-        rep.check(ok, "templates", b["path"], f"dispatch-to-{target}", "each colour kind renders with the builder of the same slot", loc(b))
-    # DisplayBuffer::write_str copies the part at offset len and advances len by part.len()
+    # DisplayBuffer::write_str copies the part at offset len and advances len by part.len(); as_str exposes buffer[0..len] — by
+    # value, from every fill level the capacity allows (a loop, copy_from_slice, a helper: all evaluate the same)
+    import abseval
     w = facts.body("anstyle", C + "DisplayBuffer::write_str")
-    rep.fn(w["path"])
-    stores = [n for n in hir.walk(w["hir"]) if n.get("k") == "assign" and hir.simp(n["l"]).get("k") == "index"]
-    adv = [n for n in hir.walk(w["hir"]) if n.get("k") == "assignop" and hir.place_str(n["l"]) == "self.len"]
-    ok = len(stores) == 1 and len(adv) == 1 and adv[0]["op"] == "AddAssign" and hir.is_call(hir.simp(adv[0]["r"]), "len") and \
-        hir.is_local(hir.simp(adv[0]["r"])["args"][0], "part")
-    if ok:
-        i = hir.simp(hir.simp(stores[0]["l"])["i"])
-        ok = i.get("k") == "bin" and i["op"] == "Add" and hir.place_str(i["l"]) == "self.len" and hir.place_str(hir.simp(stores[0]["l"])["e"]) == "self.buffer"
-    rep.check(ok, "templates", w["path"], "appends-at-len", "", loc(w))
-    # as_str exposes buffer[0..len]; Display / write_to emit as_str
     a = facts.body("anstyle", C + "DisplayBuffer::as_str")
-    rng = [n for n in hir.walk(a["hir"]) if n.get("k") == "struct" and hir.last_seg(n["path"].get("path")) in ("Range", "RangeTo")]
-    ok = len(rng) == 1
-    if ok:
-        f = {x["name"]: x["e"] for x in rng[0]["fields"]}
-        ok = ("start" not in f or hir.lit_val(f["start"]) == 0) and hir.place_str(f["end"]) == "self.len"      # [0..len] or [..len]
-    rep.check(ok, "templates", a["path"], "exposes-[0..len]", "", loc(a))
+    rep.fn(w["path"])
+    rep.fn(a["path"])
+    fill = [("int", 65 + i) for i in range(cap)]
+    bad_w, bad_a = [], []
+    for k in range(cap + 1):
+        ev = abseval.Evaluator(facts, "anstyle", {})
+        ev.concrete_strings = True
+        buf = ("rec", {"buffer": ("array",) + tuple(fill), "len": ("int", k)})
+        try:
+            shown = ev.call_fn("anstyle", a["path"], [buf])
+            if shown != ("str", "".join(chr(65 + i) for i in range(k))):
+                bad_a.append(f"len {k}: as_str gives {shown}")
+            for part in ("", "\x1b[", "m", "9;"):
+                if k + len(part) > cap:
+                    continue
+                r = ev.call_fn("anstyle", w["path"], [buf, ("str", part)])
+                want = tuple(fill[:k]) + tuple(("int", ord(c)) for c in part) + tuple(fill[k + len(part):])
+                if not (r[0] == "rec" and r[1].get("buffer") == ("array",) + want and r[1].get("len") == ("int", k + len(part))):
+                    bad_w.append(f"len {k}, part {part!r}: {str(r)[:160]}")
+                rep.count()
+        except Unrecognised as ex:
+            bad_w.append(f"len {k}: not evaluable: {ex}")
+    rep.check(not bad_w, "templates", w["path"], "appends-at-len", f"{bad_w[:2]}"[:300], loc(w))
+    rep.check(not bad_a, "templates", a["path"], "exposes-[0..len]", f"{bad_a[:2]}"[:300], loc(a))
+
+
+def _interpret_colour(text):
+    """One SGR sequence that sets one colour, read by the ECMA-48 / xterm rules: (slot, colour) or None."""
+    import re
+    m = re.fullmatch("\x1b\\[([0-9;]*)m", text)
+    if not m:
+        return None
+    ps = [int(x) if x else 0 for x in m.group(1).split(";")]
+    if len(ps) == 1:
+        c = sgr.colour_code(ps[0])
+        return (c[0], ("ansi", sgr.ANSI16.index(c[1]))) if c else None
+    slot = {v: k for k, v in sgr.SLOT_EXT.items()}.get(ps[0])
+    if slot and ps[1] == 5 and len(ps) == 3 and ps[2] <= 255:
+        return (slot, ("ansi256", ps[2]))
+    if slot and ps[1] == 2 and len(ps) == 5 and all(x <= 255 for x in ps[2:]):
+        return (slot, ("rgb",) + tuple(ps[2:]))
+    return None
+
+
+def rule_colours(facts, rep, tier="quick"):
+    """Color::render_fg/bg/underline (Display path) and Color::write_fg/bg/underline_to (io::Write path), by value: each is
+    evaluated on every 16-colour and 256-colour value and a boundary-rich sample of RGB values; what it hands to the formatter /
+    the writer must be one SGR sequence that, read by the SGR rules, sets that slot to that colour (a 16-colour underline comes
+    back as the same index of the 256-colour palette), and both paths must produce the same bytes.  How the text gets there — a
+    buffer, a static string written directly, a helper per colour kind — is the code's own business."""
+    import abseval
+    steps = (0, 1, 9, 10, 11, 99, 100, 101, 199, 200, 249, 250, 255) if tier == "thorough" else (0, 1, 9, 10, 99, 100, 199, 200, 255)
+    colours = [(("ansi", i), ("ctor", C + "Color::Ansi", ("enum", ac.ANSI + "::" + n))) for i, n in enumerate(sgr.ANSI16)]
+    colours += [(("ansi256", i), ("ctor", C + "Color::Ansi256", ("ctor", C + "Ansi256Color", ("int", i)))) for i in range(256)]
+    colours += [(("rgb", r, g, b), ("ctor", C + "Color::Rgb", ("ctor", C + "RgbColor", ("int", r), ("int", g), ("int", b))))
+                for r, g, b in itertools.product(steps, repeat=3)]
+
+    def as_text(v):
+        if v[0] == "str":
+            return v[1]
+        if v[0] == "array" and all(x[0] == "int" for x in v[1:]):
+            return bytes(x[1] for x in v[1:]).decode("latin-1")
+        raise Unrecognised(f"written value {str(v)[:60]}")
+    n = 0
+    for slot in ("fg", "bg", "underline"):
+        rf, wf = facts.body("anstyle", f"{C}Color::render_{slot}"), facts.body("anstyle", f"{C}Color::write_{slot}_to")
+        rep.fn(rf["path"])
+        rep.fn(wf["path"])
+        bad = {"render": [], "write": [], "agree": []}
+        for model, val in colours:
+            want = (slot, ("ansi256", model[1]) if slot == "underline" and model[0] == "ansi" else model)
+            outs = {}
+            for kind, body in (("render", rf), ("write", wf)):
+                got = []
+                sink = lambda a_, got=got: (got.append(a_[1]), ("ok", ("unit",)))[1]
+                ev = abseval.Evaluator(facts, "anstyle", {"std::io::Write::write_all": sink, "core::fmt::Formatter::<'a>::write_str": sink,
+                                                          "core::fmt::Write::write_str": sink})
+                ev.concrete_strings = True
+                try:
+                    if kind == "render":
+                        r = _display(ev, facts, ev.call_fn("anstyle", body["path"], [val]))
+                    else:
+                        r = ev.call_fn("anstyle", body["path"], [val, ("sym", "w")])
+                    text = "".join(as_text(g) for g in got)
+                except Unrecognised as ex:
+                    bad[kind].append(f"{model}: not evaluable: {ex}")
+                    continue
+                n += 1
+                outs[kind] = text
+                if r != ("ok", ("unit",)) or _interpret_colour(text) != want:
+                    bad[kind].append(f"{model}: emits {text!r} (returns {str(r)[:40]}), which reads as {_interpret_colour(text)}, not {want}")
+            if len(outs) == 2 and outs["render"] != outs["write"]:
+                bad["agree"].append(f"{model}: Display {outs['render']!r}, io::Write {outs['write']!r}")
+        rep.check(not bad["render"], "colours", rf["path"], f"{slot}:reads-back", f"{len(colours)} colours; {bad['render'][:2]}"[:400], loc(rf))
+        rep.check(not bad["write"], "colours", wf["path"], f"{slot}:reads-back", f"{len(colours)} colours; {bad['write'][:2]}"[:400], loc(wf))
+        rep.check(not bad["agree"], "colours", wf["path"], f"{slot}:same-bytes-as-Display", f"{bad['agree'][:2]}"[:400], loc(wf))
+    rep.count(n)
+
 
 
 def rule_digits(facts, rep):
@@ -423,24 +496,29 @@ def seq_of_emits(body, sink_names):
 
 
 def rule_order(facts, rep):
-    f = facts.body("anstyle", S + "fmt_to")
+    SD = "<anstyle::style::Style as core::fmt::Display>::fmt"
+    d = facts.body("anstyle", SD)
     w = facts.body("anstyle", S + "write_to")
-    rep.fn(f["path"])
+    r_ = facts.body("anstyle", S + "render")
+    rep.fn(d["path"])
     rep.fn(w["path"])
+    rep.fn(r_["path"])
     # by abstract evaluation: for each of the 8 presence combinations of the three colours, and each place where an emit may fail,
     # the emits performed (in order, with their arguments) and the result — `if let .. { x? }`, `match .. { Some => x, None => Ok }?`,
-    # a tail expression instead of `?; Ok(())` all evaluate alike
+    # a tail expression instead of `?; Ok(())` all evaluate alike; the crate's own helpers between the entry point and the emits
+    # (a private fmt_to, the StyleDisplay wrapper) are evaluated through, wherever the statements live
     import abseval
     C_ = "anstyle::color::Color::"
     DISP = "<anstyle::color::DisplayBuffer as core::fmt::Display>::fmt"
     EDISP = "<anstyle::effect::EffectsDisplay as core::fmt::Display>::fmt"
+    ALT = "core::fmt::Formatter::<'a>::alternate"
     slots = (("fg", "render_fg", "write_fg_to"), ("bg", "render_bg", "write_bg_to"), ("underline", "render_underline", "write_underline_to"))
 
-    def sequences(body, sink):
-        """{(presence tuple, index of the failing emit or None): (emits, result)}"""
+    def sequences(invoke, sink, alts):
+        """{(presence tuple, index of the failing emit or None, `#` flag): (emits, result)}"""
         out = {}
-        for present in itertools.product((False, True), repeat=3):
-            def run(choices, present=present):
+        for present, alt in itertools.product(itertools.product((False, True), repeat=3), alts):
+            def run(choices, present=present, alt=alt):
                 emits = []
 
                 def emit(name):
@@ -449,26 +527,20 @@ def rule_order(facts, rep):
                         return ("ok", ("unit",)) if ev.oracle(("emit-ok", len(emits) - 1)) else ("err", ("sym", f"error-{len(emits) - 1}"))
                     return f_
                 atoms = {"anstyle::effect::Effects::render": lambda a_: ("rendered-effects", a_[0]), EDISP: emit("effects"),
-                         "anstyle::effect::Effects::write_to": emit("effects"), DISP: emit("colour")}
+                         "anstyle::effect::Effects::write_to": emit("effects"), DISP: emit("colour"), ALT: ("bool", alt)}
                 for slot, rn, wn in slots:
                     atoms[C_ + rn] = (lambda a_, rn=rn: (rn, a_[0]))
                     atoms[C_ + wn] = emit(wn)
                 ev = abseval.Evaluator(facts, "anstyle", atoms)
                 ev.choices = choices
-                env = abseval.Env()
-                env[body["params"][0]["name"]] = ("rec", {"fg": ("some", ("sym", "FG")) if present[0] else ("none",),
-                                                          "bg": ("some", ("sym", "BG")) if present[1] else ("none",),
-                                                          "underline": ("some", ("sym", "UL")) if present[2] else ("none",),
-                                                          "effects": ("sym", "EFF")})
-                env[body["params"][1]["name"]] = ("sym", sink)
-                try:
-                    r = ev.ev(body["hir"], env)
-                except abseval.Return as rt:
-                    r = rt.v
-                return emits, r
+                style = ("rec", {"fg": ("some", ("sym", "FG")) if present[0] else ("none",),
+                                 "bg": ("some", ("sym", "BG")) if present[1] else ("none",),
+                                 "underline": ("some", ("sym", "UL")) if present[2] else ("none",),
+                                 "effects": ("sym", "EFF")})
+                return emits, invoke(ev, style, ("sym", sink))
             for choices, (emits, r) in abseval.explore(run):
                 failing = [k[1] for k, v in choices.items() if k[0] == "emit-ok" and not v]
-                out[(present, failing[0] if failing else None)] = (emits, r)
+                out[(present, failing[0] if failing else None, alt)] = (emits, r)
         return out
 
     def expected(present, sink, display):
@@ -478,24 +550,28 @@ def rule_order(facts, rep):
                 seq.append(("colour", [(rn, ("sym", sym_)), ("sym", sink)]) if display else (wn, [("sym", sym_), ("sym", sink)]))
         return seq
     n_cases = {}
-    for body, sink, display, label in ((f, "f", True, "Display"), (w, "write", False, "io::Write")):
+    # (`{}` of the style; `{}` and `{:#}` of what render() returns — the flag selects the reset form only on the style itself)
+    paths = ((d, "f", True, "Display", (False,), lambda ev, st, sk: ev.call_fn("anstyle", SD, [st, sk])),
+             (r_, "f", True, "render()", (False, True), lambda ev, st, sk: _display(ev, facts, ev.call_fn("anstyle", S + "render", [st]), sk)),
+             (w, "write", False, "io::Write", (False,), lambda ev, st, sk: ev.call_fn("anstyle", S + "write_to", [st, sk])))
+    for body, sink, display, label, alts, invoke in paths:
         bad = {}
         try:
-            got = sequences(body, sink)
+            got = sequences(invoke, sink, alts)
         except Unrecognised as ex:
             got, bad = {}, {"*": f"not evaluable: {ex}"}
         n_cases[label] = len(got)
         for present in itertools.product((False, True), repeat=3):
             want = expected(present, sink, display)
             cases = [(None, want, ("ok", ("unit",)))] + [(i, want[:i + 1], ("err", ("sym", f"error-{i}"))) for i in range(len(want))]
-            for failing, seq, res in cases:
-                g = got.get((present, failing))
+            for (failing, seq, res), alt in itertools.product(cases, alts):
+                g = got.get((present, failing, alt))
                 if g is None or g[0] != seq or g[1] != res:
                     step = min(len(seq) - 1, next((i for i, (x, y) in enumerate(zip(g[0] if g else [], seq)) if x != y), len(seq) - 1))
                     nm = (["effects"] + [s_[0] for s_, on in zip(slots, present) if on])[step] if seq else "Ok"
                     if failing is None and g is not None and g[0] == seq:
                         nm = "Ok"
-                    bad.setdefault(nm, f"colours present {present}, failing emit {failing}: emits {g[0] if g else None} result {g[1] if g else None}; expected {seq} {res}")
+                    bad.setdefault(nm, f"colours present {present}, `#` flag {alt}, failing emit {failing}: emits {g[0] if g else None} result {g[1] if g else None}; expected {seq} {res}")
             extra = [k for k in got if k[0] == present and k[1] is not None and k[1] >= len(want)]
             if extra:
                 bad.setdefault("Ok", f"colours present {present}: more emits than effects + the present colours")
@@ -505,35 +581,18 @@ def rule_order(facts, rep):
                       f"{label} path: effects first, then fg, bg, underline when present, each error returned at once, Ok(()) at the end "
                       f"({n_cases[label]} evaluated cases) {bad.get(nm, bad.get('*', ''))}"[:400], loc(body))
     rep.count(sum(n_cases.values()))
-    rep.check(all(v >= 20 for v in n_cases.values()), "order", S, "fmt_to-and-write_to-agree", f"both paths emit effects, fg, bg, underline and nothing else ({n_cases})", "")
-    # Display for Style / StyleDisplay
-    d = facts.body("anstyle", "<anstyle::style::Style as core::fmt::Display>::fmt")
-    rep.fn(d["path"])
+    rep.check(all(v >= 20 for v in n_cases.values()), "order", S, "fmt_to-and-write_to-agree", f"all paths emit effects, fg, bg, underline and nothing else ({n_cases})", "")
+    # Display for Style with `#`: the reset form
     ok = True
-    for alt in (True, False):
-        try:
-            ev = abseval.Evaluator(facts, "anstyle", {"core::fmt::Formatter::<'a>::alternate": ("bool", alt), S + "fmt_to": lambda a_: ("fmt_to",) + tuple(a_),
-                                                      S + "render_reset": lambda a_: ("reset-of", a_[0]),
-                                                      "<anstyle::color::NullFormatter as core::fmt::Display>::fmt": lambda a_: ("shown",) + tuple(a_),
-                                                      "*": lambda cal, a_, e_: ("shown",) + tuple(a_) if cal.endswith("core::fmt::Display>::fmt") else None})
-            env = abseval.Env()
-            env[d["params"][0]["name"]] = ("sym", "self")
-            env[d["params"][1]["name"]] = ("sym", "f")
-            try:
-                r = ev.ev(d["hir"], env)
-            except abseval.Return as rt:
-                r = rt.v
-            want = ("shown", ("reset-of", ("sym", "self")), ("sym", "f")) if alt else ("fmt_to", ("sym", "self"), ("sym", "f"))
-            ok = ok and r == want
-        except Unrecognised:
-            ok = False
-    rep.check(ok, "order", d["path"], "alternate→reset-else→fmt_to", "", loc(d))
-    sd = facts.body("anstyle", "<anstyle::style::StyleDisplay as core::fmt::Display>::fmt")
-    e = ac.single_expr(sd["hir"])
-    rep.check(hir.is_call(e, S + "fmt_to") and hir.place_str(e["args"][0]) == "self.0", "order", sd["path"], "render()→fmt_to", "", loc(sd))
-    r = facts.body("anstyle", S + "render")
-    e = ac.single_expr(r["hir"])
-    rep.check(e.get("ctor") == "anstyle::style::StyleDisplay" and hir.is_local(e["args"][0], "self"), "order", r["path"], "wraps-self", "", loc(r))
+    try:
+        ev = abseval.Evaluator(facts, "anstyle", {ALT: ("bool", True), S + "render_reset": lambda a_: ("reset-of", a_[0]),
+                                                  "<anstyle::color::NullFormatter as core::fmt::Display>::fmt": lambda a_: ("shown",) + tuple(a_),
+                                                  "*": lambda cal, a_, e_: ("shown",) + tuple(a_) if cal.endswith("core::fmt::Display>::fmt") else None})
+        r = ev.call_fn("anstyle", SD, [("sym", "self"), ("sym", "f")])
+        ok = r == ("shown", ("reset-of", ("sym", "self")), ("sym", "f"))
+    except Unrecognised:
+        ok = False
+    rep.check(ok, "order", d["path"], "alternate→reset", "", loc(d))
     # reset: RESET iff the style is not plain — 16 cases (each colour present or not, effects empty or not) by abstract
     # evaluation, so `self != Style::new()`, `!self.is_plain()`, early returns and temporaries are all the same function
     import abseval
